@@ -47,7 +47,8 @@ FNS = [kinds.node, kinds.node2, kinds.posnode, kinds.two, kinds.three, kinds.Bas
        sigs.g_a1_b2_va_k_vk, sigs.g_ab_c_va, sigs.g_abc_d_va_vk]
 LEAVES = [0, 1, -7, 2**70, 1.5, 'a', 'name with space', None, True, (1, 2), (), b'bytes',
           kinds.Color.RED, kinds.two, kinds.Base, 3 + 4j]
-KINDS = ['deepcopy', 'pickle', 'deepcopy_with', 'copy', 'copy_with', 'cast']
+KINDS = ['deepcopy', 'pickle', 'deepcopy_with', 'copy', 'copy_with', 'cast',
+         'copy_with(equal overrides)', 'deepcopy_with(equal overrides)']
 
 
 def plan(tier):
@@ -66,12 +67,22 @@ def make_copy(kind, a, rng):
     return copy.copy(a), None
   if kind == 'copy_with':
     return fdl.copy_with(a), None
+  if kind in ('copy_with(equal overrides)', 'deepcopy_with(equal overrides)'):
+    # overrides that are EQUAL to but distinct from the current mutable values: the copy must
+    # hold the objects it was given, not keep the original's
+    ov = {k: copy.deepcopy(v) for k, v in a.__arguments__.items()
+          if isinstance(k, str) and not C.is_value(v)}
+    fn = fdl.copy_with if kind.startswith('copy_with') else fdl.deepcopy_with
+    b = fn(a, **ov)
+    OVERRIDES[id(b)] = (b, ov)
+    return b, None
   if kind == 'cast':
     T = rng.choice([fdl.Config, fdl.Partial])
     return fdl.cast(T, a), T
   raise AssertionError(kind)
 
 
+OVERRIDES = {}       # id(copy) -> (copy, overrides passed to copy_with / deepcopy_with)
 MUST_NOT_SHARE = ('buildable', 'container', 'argstore', 'tagstore', 'tagset', 'history')
 
 
@@ -219,7 +230,7 @@ def run_case(rng, acc):
   if any(v and k not in a.__arguments__ for k, v in a.__argument_tags__.items()):
     acc.obs('tagged_unset_argument_cases')
   cnt = itertools.count(1)
-  for kind in rng.sample(KINDS, 3):
+  for kind in rng.sample(KINDS, 4):
     acc.obs('kind:' + kind)
     acc.case((sketch, kind), nb >= 2)
 
@@ -231,6 +242,34 @@ def run_case(rng, acc):
     frame_a = C.canon(a, 'frame')
     ca = C.canon(a, 'cfg-exact')
     build_a = build_canon(a)
+    if kind.endswith('(equal overrides)'):
+      # only the override clause and independence are judged for these (the overrides change
+      # the sharing between arguments on purpose)
+      try:
+        b, _ = make_copy(kind, a, rng)
+      except Exception as e:  # pylint: disable=broad-except
+        OVERRIDES.clear()
+        if uncopyable:
+          acc.obs('refused:uncopyable-leaf')
+        else:
+          acc.violation(f'{kind}:raises:{type(e).__name__}', f'{kind} raised {e!r}'[:300], witness())
+        continue
+      _, ov = OVERRIDES.pop(id(b))
+      for k, v in ov.items():
+        acc.obs('equal_override_checked')
+        if a.__arguments__.get(k) is b.__arguments__.get(k):
+          acc.violation(f'{kind}:override-ignored-copy-keeps-original-object',
+                        f'argument {k!r}: the copy holds the ORIGINAL\'s object, not the equal '
+                        'object passed as override', witness(key=k))
+          break
+        if kind.startswith('copy_with') and b.__arguments__.get(k) is not v:
+          acc.violation(f'{kind}:override-ignored', f'argument {k!r} of the copy is not the object '
+                        'passed as override', witness(key=k))
+          break
+      if C.canon(a, 'frame') != frame_a:
+        acc.violation(f'{kind}:original-modified-by-copying', 'frame canon of the original changed',
+                      witness())
+      continue
     try:
       b, cast_type = make_copy(kind, a, rng)
     except Exception as e:  # pylint: disable=broad-except
